@@ -277,7 +277,7 @@ func init() {
 		}
 	}
 	prof := gen.Hostile().With(func(p *gen.Profile) {
-		p.Keys = []string{"a", "b", "c", "a/b", "m~n", "~", "x<y", "é", "k"}
+		p.Keys = []string{"a", "b", "c", "a/b", "m~n", "~", "~1", "x<y", "é", "k"}
 		p.ScalarBias = 30
 	})
 	core.Register(&core.Prop{
